@@ -838,7 +838,7 @@ func (prop) ExtraPhase(tier string, seed uint64, deadline time.Time) (*driver.Ex
 	er.Coverage["run_endings"] = ends
 	er.Coverage["histories_run_twice_with_identical_output"] = detChecks
 	er.Coverage["interpreter_sha256"] = sum
-	er.Coverage["components"] = "real: llgo compiler lowering of make/index/assign/delete/clear/len/range for 25 concrete map types, llgo-compiled map runtime, hash and equality functions, type descriptors emitted by the compiler; stub: C rand (hash key material, range start positions) drawn from the history's seed, LLVM 14, bdwgc"
+	er.Coverage["components"] = "real: llgo compiler lowering of make/index/assign/delete/clear/len/range for 53 concrete map types (23 key kinds, 7 element kinds), llgo-compiled map runtime, hash and equality functions, type descriptors emitted by the compiler; stub: C rand (hash key material, range start positions) drawn from the history's seed, LLVM 14, bdwgc"
 	return er, nil
 }
 
